@@ -450,7 +450,8 @@ def run_one(args):
     if races:
         res['known'].append(('C03', 'lock-list-tail-race', 'unsynchronised read of the lock list (%s) concurrent with emplace_back: events %s' % (races[0][4], races[0][:2])))
     # data accesses against the happens-before model (extracted MemDefs.v)
-    if os.environ.get('VERIF_T2_MEM', '1') == '1':
+    memmode = os.environ.get('VERIF_T2_MEM', '1')
+    if memmode == '1' or (memmode == 'random' and not tag.startswith('sweep')):
         lb = int(re.search(r'^cfg (\d+) (\d+)', script, flags=re.M).group(2))
         mc = mem_check(run['trace'], run['arrs0'], lb)
         res['mem'] = dict(naccess=mc.get('naccess', 0), orders=mc.get('orders'))
